@@ -65,11 +65,21 @@ def main():
              'applies it to a scratch worktree of `/repo`, runs the *quick* tier of the property it targets with '
              '`VERIF_REPO=<worktree>` and records whether a VIOLATION was reported.', '',
              '| mutant | property | result | first buckets / note |', '|---|---|---|---|']
+    notes = {}
+    if os.path.exists(os.path.join(V, 'mutants', 'notes.json')):
+        notes = json.load(open(os.path.join(V, 'mutants', 'notes.json')))
     for name in sorted(results):
         r = results[name]
-        lines.append('| %s | %s | %s | %s |' % (name, r['property'], r['status'], r['detail'].replace('|', '/')[:160]))
+        detail = r['detail'].replace('|', '/')[:160]
+        status = r['status']
+        if status == 'SURVIVED' and name in notes:
+            status = 'survived (equivalent)'
+            detail = notes[name]
+        lines.append('| %s | %s | %s | %s |' % (name, r['property'], status, detail))
     killed = sum(1 for r in results.values() if r['status'] == 'killed')
-    lines += ['', '%d of %d mutants killed.' % (killed, len(results))]
+    equiv = sum(1 for n, r in results.items() if r['status'] == 'SURVIVED' and n in notes)
+    lines += ['', '%d of %d mutants killed; %d survivors are argued equivalent (see notes); %d other.' %
+              (killed, len(results), equiv, len(results) - killed - equiv)]
     open(os.path.join(V, 'mutants', 'RESULTS.md'), 'w').write('\n'.join(lines) + '\n')
 
 
